@@ -333,6 +333,8 @@ func init() {
 				{"value-struct", Service{Value: P("pk.Obj{}"), Type: P("pk.Obj"), Fields: []KV{{"F1", "x"}}}, false},
 				{"type-only", Service{Type: P("pk2.Val"), Fields: []KV{{"F2", "@helper"}}}, false},
 				{"decorated-untyped", Service{Constructor: P("pk.New"), Tags: []Tag{{Name: "dtag"}}}, false},
+				{"shared-explicit", Service{Constructor: P("pk.New"), Type: P("*pk.Obj"), Scope: P("shared")}, false},
+				{"shared-explicit-untyped", Service{Constructor: P("pk.New"), Scope: P("shared"), Args: []any{"@helper"}}, false},
 				{"contextual", Service{Constructor: P("pk.New"), Type: P("*pk.Obj"), Scope: P("contextual")}, false},
 				{"nonshared", Service{Constructor: P("pk.NewVal"), Type: P("pk.Val"), Scope: P("non_shared")}, false},
 				{"failing", Service{Constructor: P("pk.NewE"), Args: []any{"fail"}, Type: P("*pk.Obj")}, true},
@@ -354,7 +356,18 @@ func init() {
 					cfg.Services = []Service{s, {Name: "helper", Constructor: P("pk2.New")}, {Name: "todoSvc", Todo: P(true)}}
 					cfg.Decorators = []Decorator{{Tag: "dtag", Decorator: "pk.Dec1"}}
 					ops := []ProbeOp{op("get", "sut"), op("getter", "FetchSut"), opCtx("getterctx", "A", "FetchSutInContext"), op("mustgetter", "MustFetchSut"), opCtx("mustgetterctx", "A", "MustFetchSutInContext"), opCtx("getterctx", "B", "FetchSutInContext"), op("getter", "FetchSut")}
-					cases = append(cases, &BCase{ID: fmt.Sprintf("exec/%s/default=%d", d.id, dm), Cfg: cfg, Sessions: []BSession{{Ops: ops}}})
+					sessions := []BSession{{Ops: ops}}
+					switch d.id {
+					case "untyped", "ptr", "iface", "shared-explicit", "shared-explicit-untyped", "contextual", "decorated-untyped":
+						// the getters keep agreeing with Get(name) after the service has been replaced at run time
+						ov := ProbeOp{Op: "overrideService", Name: "sut", Val: &ProbeSpec{Kind: "ctor", Ctor: "fx/pk.New2", Args: []any{"replacement"}}}
+						after := []ProbeOp{op("get", "sut"), op("getter", "FetchSut"), op("mustgetter", "MustFetchSut"), opCtx("getterctx", "A", "FetchSutInContext"), opCtx("mustgetterctx", "B", "MustFetchSutInContext")}
+						sessions = append(sessions,
+							BSession{Ops: append(append(append([]ProbeOp{}, ops...), ov), after...)},
+							BSession{Ops: append(append([]ProbeOp{op("getter", "FetchSut"), op("mustgetter", "MustFetchSut")}, ov), after...)},
+							BSession{Ops: append([]ProbeOp{ov}, after...)})
+					}
+					cases = append(cases, &BCase{ID: fmt.Sprintf("exec/%s/default=%d", d.id, dm), Cfg: cfg, Sessions: sessions})
 				}
 			}
 			runBatches(w, "c13exec", cases, 24, behaviourOracle)
